@@ -1,10 +1,13 @@
 package main
 
 import (
+	"encoding/json"
 	"fmt"
 	"go/ast"
 	"go/constant"
 	"go/types"
+	"os"
+	"path/filepath"
 	"sort"
 	"strings"
 
@@ -312,4 +315,157 @@ func (v *verifier) genTables() string {
 	}
 	fmt.Fprintf(&sb, "(define-fun handlerFn ((k Int)) Fn %s)\n", body)
 	return sb.String()
+}
+
+// builtinTable reads the composite literal of exec.builtinFunctions and of every overloadHelper variable:
+// name -> arity ("*" = any) -> function key.
+func (v *verifier) builtinTable() (map[string]map[string]string, []string) {
+	out := map[string]map[string]string{}
+	var errs []string
+	p := v.findPkg(xselPath + "/exec")
+	if p == nil {
+		return out, []string{"package exec not loaded"}
+	}
+	overloads := map[string]map[string]string{}
+	var table *ast.CompositeLit
+	for _, f := range p.Syntax {
+		for _, d := range f.Decls {
+			gd, ok := d.(*ast.GenDecl)
+			if !ok {
+				continue
+			}
+			for _, sp := range gd.Specs {
+				vs, ok := sp.(*ast.ValueSpec)
+				if !ok || len(vs.Names) != 1 || len(vs.Values) != 1 {
+					continue
+				}
+				cl, ok := vs.Values[0].(*ast.CompositeLit)
+				if !ok {
+					continue
+				}
+				if vs.Names[0].Name == "builtinFunctions" {
+					table = cl
+					continue
+				}
+				if id, ok := cl.Type.(*ast.Ident); ok && id.Name == "overloadHelper" {
+					m := map[string]string{}
+					for _, e := range cl.Elts {
+						kv, ok := e.(*ast.KeyValueExpr)
+						if !ok {
+							continue
+						}
+						tv := p.TypesInfo.Types[kv.Key]
+						fn, ok2 := kv.Value.(*ast.Ident)
+						if tv.Value == nil || !ok2 {
+							errs = append(errs, "unreadable overloadHelper entry in "+vs.Names[0].Name)
+							continue
+						}
+						m[tv.Value.ExactString()] = "exec." + fn.Name
+					}
+					overloads[vs.Names[0].Name] = m
+				}
+			}
+		}
+	}
+	if table == nil {
+		return out, append(errs, "exec.builtinFunctions: composite literal not found")
+	}
+	for _, e := range table.Elts {
+		kv, ok := e.(*ast.KeyValueExpr)
+		if !ok {
+			continue
+		}
+		key, ok := kv.Key.(*ast.CompositeLit)
+		if !ok || len(key.Elts) != 2 {
+			errs = append(errs, "exec.builtinFunctions: unreadable key")
+			continue
+		}
+		sp := p.TypesInfo.Types[key.Elts[0]]
+		lo := p.TypesInfo.Types[key.Elts[1]]
+		if sp.Value == nil || lo.Value == nil {
+			errs = append(errs, "exec.builtinFunctions: non-constant key")
+			continue
+		}
+		name := constant.StringVal(lo.Value)
+		if s := constant.StringVal(sp.Value); s != "" {
+			name = "{" + s + "}" + name
+		}
+		switch val := kv.Value.(type) {
+		case *ast.Ident:
+			out[name] = map[string]string{"*": "exec." + val.Name}
+		case *ast.CallExpr:
+			sel, ok := val.Fun.(*ast.SelectorExpr)
+			id, ok2 := (ast.Expr)(nil), false
+			if ok {
+				id, ok2 = sel.X, true
+			}
+			if recv, ok3 := id.(*ast.Ident); ok && ok2 && ok3 && sel.Sel.Name == "build" && overloads[recv.Name] != nil {
+				out[name] = overloads[recv.Name]
+			} else {
+				errs = append(errs, "exec.builtinFunctions["+name+"]: unrecognised value expression")
+			}
+		default:
+			errs = append(errs, "exec.builtinFunctions["+name+"]: unrecognised value expression")
+		}
+	}
+	return out, errs
+}
+
+// builtinObligations: the XPath 1.0 core function library (section 4, without id()) must be registered under
+// its names, each name and arity bound to the Go function whose contract states that function's meaning.
+// The expected binding is the specification side (/verif/spec/builtins.json).
+func (v *verifier) builtinObligations() []*Obligation {
+	var out []*Obligation
+	raw, err := os.ReadFile(filepath.Join(v.specDir, "builtins.json"))
+	if err != nil {
+		return nil
+	}
+	var want map[string]struct {
+		Props []string          `json:"props"`
+		Fns   map[string]string `json:"fns"`
+	}
+	if err := json.Unmarshal(raw, &want); err != nil {
+		return []*Obligation{{Name: "exec.builtinFunctions/table", Fn: "exec.builtinFunctions", Kind: "structural", Goal: "false", Src: "spec/builtins.json unreadable: " + err.Error(), Props: []string{"C04"}, tr: emptyTrans(v)}}
+	}
+	got, errs := v.builtinTable()
+	var names []string
+	for n := range want {
+		names = append(names, n)
+	}
+	sort.Strings(names)
+	for _, n := range names {
+		w := want[n]
+		goal := "true"
+		src := fmt.Sprintf("builtin %s() is registered and bound to %v", n, w.Fns)
+		g := got[n]
+		if g == nil {
+			goal = "false"
+			src += " - NOT REGISTERED in exec.builtinFunctions"
+		} else {
+			for ar, fn := range w.Fns {
+				if g[ar] != fn {
+					goal = "false"
+					src += fmt.Sprintf(" - arity %s is bound to %q", ar, g[ar])
+				} else if c := v.contracts[fn]; c == nil || c.Trusted {
+					goal = "false"
+					src += fmt.Sprintf(" - %s has no verified contract", fn)
+				}
+			}
+			for ar := range g {
+				if _, ok := w.Fns[ar]; !ok {
+					goal = "false"
+					src += fmt.Sprintf(" - unexpected arity %s", ar)
+				}
+			}
+		}
+		out = append(out, &Obligation{Name: "exec.builtinFunctions/entry[" + n + "]", Fn: "exec.builtinFunctions", Kind: "structural", Goal: goal, Src: src,
+			Props: append(append([]string{}, w.Props...), "C11"), tr: emptyTrans(v)})
+	}
+	goal := "true"
+	if len(errs) > 0 {
+		goal = "false"
+	}
+	out = append(out, &Obligation{Name: "exec.builtinFunctions/readable", Fn: "exec.builtinFunctions", Kind: "structural", Goal: goal,
+		Src: "the table literal is in the shape the extractor understands " + strings.Join(errs, "; "), Props: []string{"C04", "C06", "C07", "C12", "C02", "C11"}, tr: emptyTrans(v)})
+	return out
 }
